@@ -29,7 +29,8 @@ RULE = ("(a) seeded nestings (depth <= 6, <= 40 nodes) of the three context mana
         "calls and raises of 9 exception classes, from depth 0 or a positive start depth; (b) seeded histories of 0-50 assemblies drawn from valid "
         "programs, programs with 1-3 planted faults (parse/compile/evaluation time), programs that crash the assembler (RecursionError while parsing "
         "and while evaluating, TypeError in the string-escape parser), assemblies interrupted by an exception injected at a random function call, "
-        "and assemblies cut by the real watchdog, followed by a probe (valid, faulty, multi-file) compared with a fresh process; "
+        "assemblies cut by the real watchdog, and product chains ('x1 = x0*x0 / x2 = x1*x1 / ... / x0 = 1' valid, undefined, ring, overflow; plain or interrupted) that "
+        "leave many entries in try_compute.not_ready_yet, followed by a probe (valid, faulty, multi-file, product chain over the same names) compared with a fresh process; "
         "(c) every probe (incl. programs with groups of 2-5 equal-valued labels / constants under random names) under PYTHONHASHSEED 0..15 and a random seed, "
         "comparing outcome, base, bytes, diagnostics and the listing text; and the command line with --lst -o under the same seeds, comparing every file written. non-trivial = distinct (history kinds, probe) with >= 1 non-valid item, "
         "or a distinct nesting that raises or returns through >= 1 context manager")
@@ -84,6 +85,8 @@ def prog_term(p):
         return f"(PCall {prog_term(p[1])} {prog_term(p[2])})"
     if k == "ifaw":
         return f"(PIfAwaiting {p[1]} {prog_term(p[2])} {prog_term(p[3])})"
+    if k == "wait":
+        return f"(PWait {p[1]} {prog_term(p[2])} {prog_term(p[3])})"
     cm = p[1]
     if cm[0] == "try":
         c = "CTry"
@@ -116,6 +119,8 @@ def gen_prog(rng, depth, budget, hcount):
         return ("call", gen_prog(rng, depth - 1, budget, hcount), gen_prog(rng, depth, budget, hcount))
     if r < 0.62:
         return ("ifaw", rng.randrange(6), gen_prog(rng, depth - 1, budget, hcount), gen_prog(rng, depth - 1, budget, hcount))
+    if r < 0.74:
+        return ("wait", rng.randrange(6), gen_prog(rng, depth - 1, budget, hcount), gen_prog(rng, depth, budget, hcount))
     k = rng.random()
     if k < 0.35:
         cm = ("try",)
@@ -134,7 +139,17 @@ def run_nest(p, depth0, nids):
     deferred, reports = m["deferred"], m["reports"]
     impl.reset_global_state()
     deferred.try_compute.depth = depth0
-    defs = [deferred.Promise[int](f"p{i}") for i in range(nids)]
+    deferred.try_compute.not_ready_yet = {}          # the model starts from an empty record
+
+    class NestDeferred(deferred.BaseDeferred):       # the real BaseDeferred.wait, with the body of the nesting as _wait()
+        def __init__(self, typ):
+            super().__init__(typ)
+            self.body = ("end",)
+
+        def _wait(self):
+            return run(self.body)
+
+    defs = [NestDeferred(int) for i in range(nids)]
     inst = {}
     PR = {"E": reports.error, "C": reports.critical, "W": reports.warning}
 
@@ -188,6 +203,10 @@ def run_nest(p, depth0, nids):
             return run(p[2])
         if k == "ifaw":
             return run(p[2]) if defs[p[1]].is_awaiting else run(p[3])
+        if k == "wait":
+            defs[p[1]].body = p[2]
+            defs[p[1]].wait()
+            return run(p[3])
         with make_cm(p[1]):
             r = run(p[2])
             if r == "return":
@@ -221,8 +240,10 @@ def run_nest(p, depth0, nids):
            "awaiting": [rid.get(id(x), 999) for x in reversed(deferred.Awaiting.awaiting_stack)],
            "handlers": [hid.get(id(x), 999) for x in reversed(reports.handle_reports.handlers_stack)],
            "flags": [bool(d.is_awaiting) for d in defs] + [False] * (nids - len(defs)),
-           "latches": [bool(inst[i].is_error_condition) if i in inst else False for i in range(nids)]}
+           "latches": [bool(inst[i].is_error_condition) if i in inst else False for i in range(nids)],
+           "nry": [rid.get(id(x), 999) for x in reversed(list(deferred.try_compute.not_ready_yet.values()))]}
     impl.reset_global_state()
+    deferred.try_compute.not_ready_yet = {}
     return res
 
 
@@ -240,6 +261,10 @@ def nest_part(rep, rng, n):
               (("with", ("handle", 6, ("returns", True)), ("rep", "C", ("end",)), ("rep", "W", ("end",))), 0, 7),
               (("with", ("try",), ("nr", ("end",)), ("nr", ("end",))), 0, 6),
               (("rep", "E", ("end",)), 0, 6),
+              (("with", ("try",), ("wait", 1, ("nr", ("end",)), ("end",)), ("wait", 1, ("raise", ("other", 2)), ("end",))), 0, 6),
+              (("with", ("try",), ("call", ("with", ("try",), ("wait", 1, ("nr", ("end",)), ("end",)), ("end",)), ("wait", 1, ("raise", ("other", 2)), ("end",))), ("end",)), 0, 6),
+              (("wait", 2, ("wait", 2, ("end",), ("end",)), ("end",)), 0, 6),
+              (("wait", 3, ("nr", ("end",)), ("end",)), 1, 6),
               (("with", ("await", 2), ("ifaw", 2, ("with", ("try",), ("raise", "cycle"), ("ret",)), ("raise", "assert")), ("end",)), 0, 6)]
     terms, obs = [], []
     b = lambda x: "true" if x else "false"
@@ -251,7 +276,7 @@ def nest_part(rep, rng, n):
         if o["outcome"] != "ONormal":
             rep.nontrivial(("nest", json.dumps(p), d0))
         terms.append(f"mk_nest {C.zlit(d0)}%Z {prog_term(p)}%N {C.nlist(range(nids))}%N ({o['outcome']})%N {C.zlit(o['depth'])}%Z {C.nlist(o['awaiting'])}%N "
-                     f"{C.nlist(o['handlers'])}%N [{'; '.join(b(x) for x in o['flags'])}] [{'; '.join(b(x) for x in o['latches'])}]")
+                     f"{C.nlist(o['handlers'])}%N [{'; '.join(b(x) for x in o['flags'])}] [{'; '.join(b(x) for x in o['latches'])}] {C.nlist(o['nry'])}%N")
         obs.append(o)
     rep.sample({"nesting": cases[0][0], "start_depth": cases[0][1], "observed": obs[0]})
     codes = C.run_case_files(ID + "nest", REQ, "", C.shard(terms, 400), judge_expr="map judge_nest cases")
@@ -282,6 +307,11 @@ def canonical(r):
             "listing": r.get("listing"), "listing_crash": r.get("listing_crash")}
 
 
+def leftover_now():
+    m = impl.load()
+    return len(m["deferred"].try_compute.not_ready_yet)
+
+
 def state_now():
     m = impl.load()
     return [m["deferred"].try_compute.depth, len(m["deferred"].Awaiting.awaiting_stack), len(m["reports"].handle_reports.handlers_stack)]
@@ -304,11 +334,12 @@ def fp(v, depth):
         return "obj:" + getattr(v, "__qualname__", type(v).__name__)
     d = getattr(v, "__dict__", None)
     if isinstance(d, dict):
-        return [type(v).__name__] + [[k, fp(x, depth - 1)] for k, x in sorted(d.items()) if not k.startswith("__")]
+        return [type(v).__name__] + [[k, fp(x, depth - 1)] for k, x in sorted(d.items()) if not k.startswith("__") and k not in IGNORE_FIELDS]
     return type(v).__name__
 
 
 IGNORE_FP = {"pdpy11.deferred.Deferred.next_instance_id"}
+IGNORE_FIELDS = {"not_ready_yet"}     # try_compute.not_ready_yet: modelled state (Gen/GenGState.v nry), dead at depth 0 (C18_leftover_not_ready_irrelevant)
 
 
 def fingerprint():
@@ -380,7 +411,7 @@ def run_history(job):
         except BaseException as ex:      # the injected exception escaped impl.assemble (e.g. raised in its own epilogue)
             oc = "escaped:" + type(ex).__name__
         st = state_now()
-        entry = {"kind": item["kind"], "outcome": oc, "state": st}
+        entry = {"kind": item["kind"], "outcome": oc, "state": st, "leftover": leftover_now()}
         if item.get("watchdog") and st != [0, 0, 0]:
             # an asynchronous SIGALRM landed inside __enter__/__exit__: outside the model and the property; noted and repaired
             entry["async_dirty"] = True
@@ -443,11 +474,42 @@ def equal_values_program(rng):
     return "\n".join(lines) + "\n"
 
 
-PROBE_KINDS = ["equal-values", "valid", "faulty", "two-files", "include+forward", "shared-names", "equal-values"]
+def product_chain(rng, n=None, x0="1", use=True, extra=""):
+    """'x1 = x0*x0 / x2 = x1*x1 / ... / x0 = <x0> last': every definition is speculated on while x0 is unknown,
+    so the run leaves many entries in try_compute.not_ready_yet; the names are the same in every such program."""
+    n = n or rng.randint(3, 14)
+    lines = [f"x{i} = x{i-1} * x{i-1}" for i in range(1, n + 1)]
+    if use:
+        lines.append(f".word x{rng.randint(1, n)}")
+    lines.append(extra) if extra else None
+    if x0 is not None:
+        lines.append(f"x0 = {x0}")
+    return "\n".join(lines) + "\n"
+
+
+def product_chain_variant(rng):
+    k = rng.randrange(6)
+    if k == 0:
+        return "valid", product_chain(rng)
+    if k == 1:
+        return "valid", product_chain(rng, x0=rng.choice(["0", "-1", "1"]), use=rng.random() < 0.7)
+    if k == 2:
+        return "invalid", product_chain(rng, x0=None)                       # x0 undefined
+    if k == 3:
+        return "invalid", product_chain(rng, x0="x2 + 1")                   # a ring
+    if k == 4:
+        return "invalid", product_chain(rng, n=rng.randint(5, 9), x0="2")   # 2**(2**n) does not fit a word
+    return "valid", product_chain(rng, extra="y1 = x1 + x2\n.word y1")
+
+
+PROBE_KINDS = ["product-chain", "equal-values", "valid", "faulty", "two-files", "include+forward", "shared-names", "equal-values"]
 
 
 def gen_probe(rng, i):
-    kind = PROBE_KINDS[i] if i < len(PROBE_KINDS) else rng.choice(PROBE_KINDS + ["valid", "faulty"])
+    kind = PROBE_KINDS[i] if i < len(PROBE_KINDS) else rng.choice(PROBE_KINDS + ["valid", "faulty", "product-chain"])
+    if kind == "product-chain":
+        v, text = product_chain_variant(rng)
+        return {"files": [["probe.mac", text]], "what": "product-chain:" + v}
     if kind == "equal-values":
         return {"files": [["probe.mac", equal_values_program(rng)]], "what": "equal-values"}
     if kind == "valid":
@@ -477,7 +539,15 @@ def gen_history(rng, maxlen):
     for j in range(n):
         r = rng.random()
         tag = "" if rng.random() < 0.5 else f"h{j}_"        # untagged names (l0.., k0..) are shared with other items and with some probes
-        if r < 0.3:
+        if rng.random() < 0.2:
+            # ends with many entries left in try_compute.not_ready_yet; plain, or cut short by an injected crash / hang
+            v, text = product_chain_variant(rng)
+            item = {"kind": "product-chain-" + v, "files": [["h.mac", text]]}
+            if rng.random() < 0.4:
+                kind = rng.choice(["crash", "hang"])
+                item = {"kind": "product-chain-injected-" + kind, "files": [["h.mac", text]], "inject": {"kind": kind, "at": None, "frac": rng.random()}}
+            hist.append(item)
+        elif r < 0.3:
             text, _ = gen_program(rng, tag, warns=rng.randint(0, 1))
             hist.append({"kind": "valid", "files": [["h.mac", text]]})
         elif r < 0.55:
@@ -575,6 +645,8 @@ def history_part(rep, rng, nprobes, nhist_per_probe, maxlen, seeds):
             rep.nontrivial(("history", tuple(h["kind"] for h in job["history"]), probes[job["pi"]]["what"], job["pi"]))
         for e in res["log"]:
             rep.count("item-outcome:" + e["kind"].split(":")[0] + "->" + str(e["outcome"]))
+            if e.get("leftover"):
+                rep.count("item-left-entries-in-not_ready_yet")
             if e.get("async_dirty"):
                 rep.count("watchdog-signal-landed-inside-enter-or-exit(state repaired, not judged)")
         want = ref[job["pi"]]
